@@ -1,0 +1,235 @@
+//! Verification hooks, compiled only with `--cfg gm_rs_verif`.
+//!
+//! Nothing in this module is reachable in a normal build. It gives an external
+//! test harness (a) control over the 32 candidate bytes that `sm9_random_u256`
+//! turns into a secret scalar, (b) a log of the scalars it actually handed out
+//! and (c) access to crate-private types and functions (tower fields, pairing,
+//! hash-to-range, fixed-base table).
+
+use std::cell::RefCell;
+use std::collections::VecDeque;
+
+pub use crate::fields::fp::Fp;
+pub use crate::fields::fp12::Fp12;
+pub use crate::fields::fp2::Fp2;
+pub use crate::fields::fp4::Fp4;
+pub use crate::fields::FieldElement;
+use crate::points::{Point, TwistPoint};
+use crate::u256::U256;
+
+thread_local! {
+    static CANDIDATES: RefCell<Option<VecDeque<[u8; 32]>>> = RefCell::new(None);
+    static ACCEPTED: RefCell<Option<Vec<U256>>> = RefCell::new(None);
+}
+
+/// Message of the panic raised when an installed candidate queue runs dry.
+pub const EXHAUSTED_MSG: &str = "gm_rs_verif: candidate queue exhausted";
+
+pub fn set_candidates(q: Option<Vec<[u8; 32]>>) {
+    CANDIDATES.with(|c| *c.borrow_mut() = q.map(VecDeque::from));
+}
+
+pub fn candidates_left() -> usize {
+    CANDIDATES.with(|c| c.borrow().as_ref().map(|q| q.len()).unwrap_or(0))
+}
+
+/// Called by `sm9_random_u256` right after the RNG filled `buf`.
+pub fn override_candidate(buf: &mut [u8; 32]) {
+    CANDIDATES.with(|c| {
+        if let Some(q) = c.borrow_mut().as_mut() {
+            match q.pop_front() {
+                Some(v) => *buf = v,
+                None => panic!("{}", EXHAUSTED_MSG),
+            }
+        }
+    });
+}
+
+pub fn start_recording() {
+    ACCEPTED.with(|a| *a.borrow_mut() = Some(Vec::new()));
+}
+
+pub fn take_recorded() -> Vec<U256> {
+    ACCEPTED.with(|a| a.borrow_mut().take().unwrap_or_default())
+}
+
+/// Called by `sm9_random_u256` with the value it is about to return.
+pub fn record_accepted(v: &U256) {
+    ACCEPTED.with(|a| {
+        if let Some(l) = a.borrow_mut().as_mut() {
+            l.push(*v);
+        }
+    });
+}
+
+// ---- constructors / accessors (all values in the library's Montgomery form) ----
+
+pub fn fp2_new(c: [Fp; 2]) -> Fp2 {
+    Fp2 { c0: c[0], c1: c[1] }
+}
+
+pub fn fp2_parts(a: &Fp2) -> [Fp; 2] {
+    [a.c0, a.c1]
+}
+
+pub fn fp4_new(c: [Fp; 4]) -> Fp4 {
+    Fp4 {
+        c0: fp2_new([c[0], c[1]]),
+        c1: fp2_new([c[2], c[3]]),
+    }
+}
+
+pub fn fp4_parts(a: &Fp4) -> [Fp; 4] {
+    [a.c0.c0, a.c0.c1, a.c1.c0, a.c1.c1]
+}
+
+pub fn fp12_new(c: [Fp; 12]) -> Fp12 {
+    Fp12 {
+        c0: fp4_new([c[0], c[1], c[2], c[3]]),
+        c1: fp4_new([c[4], c[5], c[6], c[7]]),
+        c2: fp4_new([c[8], c[9], c[10], c[11]]),
+    }
+}
+
+pub fn fp12_parts(a: &Fp12) -> [Fp; 12] {
+    let (a0, a1, a2) = (fp4_parts(&a.c0), fp4_parts(&a.c1), fp4_parts(&a.c2));
+    [
+        a0[0], a0[1], a0[2], a0[3], a1[0], a1[1], a1[2], a1[3], a2[0], a2[1], a2[2], a2[3],
+    ]
+}
+
+// ---- Fp ----
+
+pub fn fp_pow(a: &Fp, e: &U256) -> Fp {
+    crate::fields::fp::fp_pow(a, e)
+}
+
+pub fn fp_from_bytes(b: &[u8]) -> Fp {
+    crate::fields::fp::fp_from_bytes(b)
+}
+
+// ---- Fp2 ----
+
+pub fn fp2_mul_fp(a: &Fp2, k: &Fp) -> Fp2 {
+    a.fp_mul_fp(k)
+}
+
+pub fn fp2_div(a: &Fp2, b: &Fp2) -> Fp2 {
+    a.div(b)
+}
+
+pub fn fp2_conjugate(a: &Fp2) -> Fp2 {
+    a.conjugate()
+}
+
+pub fn fp2_a_mul_u(a: &Fp2) -> Fp2 {
+    a.a_mul_u()
+}
+
+pub fn fp2_mul_u(a: &Fp2, b: &Fp2) -> Fp2 {
+    a.fp_mul_u(b)
+}
+
+pub fn fp2_sqr_u(a: &Fp2) -> Fp2 {
+    a.sqr_u()
+}
+
+// ---- Fp4 ----
+
+pub fn fp4_mul_fp(a: &Fp4, k: &Fp) -> Fp4 {
+    a.fp_mul_fp(k)
+}
+
+pub fn fp4_mul_fp2(a: &Fp4, k: &Fp2) -> Fp4 {
+    a.fp_mul_fp2(k)
+}
+
+pub fn fp4_mul_v(a: &Fp4, b: &Fp4) -> Fp4 {
+    a.fp_mul_v(b)
+}
+
+pub fn fp4_a_mul_v(a: &Fp4) -> Fp4 {
+    a.a_mul_v()
+}
+
+pub fn fp4_conjugate(a: &Fp4) -> Fp4 {
+    a.conjugate()
+}
+
+pub fn fp4_sqr_v(a: &Fp4) -> Fp4 {
+    a.sqr_v()
+}
+
+// ---- Fp12 ----
+
+pub fn fp12_pow(a: &Fp12, e: &U256) -> Fp12 {
+    a.pow(e)
+}
+
+pub fn fp12_line_mul(a: &Fp12, lw: &[Fp2; 3]) -> Fp12 {
+    a.fp_line_mul(lw)
+}
+
+pub fn fp12_frobenius(a: &Fp12) -> Fp12 {
+    a.verif_frobenius()
+}
+
+pub fn fp12_frobenius2(a: &Fp12) -> Fp12 {
+    a.fp12_frobenius2()
+}
+
+pub fn fp12_frobenius3(a: &Fp12) -> Fp12 {
+    a.verif_frobenius3()
+}
+
+pub fn fp12_frobenius6(a: &Fp12) -> Fp12 {
+    a.fp12_frobenius6()
+}
+
+pub fn fp12_final_exponent(a: &Fp12) -> Fp12 {
+    a.final_exponent()
+}
+
+pub fn fp12_final_exponent_hard_part(a: &Fp12) -> Fp12 {
+    a.final_exponent_hard_part()
+}
+
+// ---- points, pairing ----
+
+pub fn point_from_bytes(b: &[u8]) -> Point {
+    Point::from_bytes(b)
+}
+
+pub fn pairing(q: &TwistPoint, p: &Point) -> Fp12 {
+    crate::points::sm9_u256_pairing(q, p)
+}
+
+pub fn twist_point_add_full(p1: &TwistPoint, p2: &TwistPoint) -> TwistPoint {
+    crate::points::twist_point_add_full(p1, p2)
+}
+
+pub fn twist_point_pi1(q: &TwistPoint) -> TwistPoint {
+    q.point_pi1()
+}
+
+pub fn twist_point_neg_pi2(q: &TwistPoint) -> TwistPoint {
+    q.point_neg_pi2()
+}
+
+pub fn precomputed_table() -> &'static [[[u64; 4]; 128]; 37] {
+    &crate::sm9_p256_table::SM9_P256_PRECOMPUTED
+}
+
+// ---- hash-to-range, KDF ----
+
+pub fn hash1(id: &[u8], hid: u8) -> U256 {
+    crate::key::verif_hash1(id, hid)
+}
+
+pub fn hash2(data: &[u8], wbuf: &[u8]) -> U256 {
+    crate::key::verif_hash2(data, wbuf)
+}
+
+pub fn kdf(z: &[u8], klen: usize) -> Vec<u8> {
+    crate::key::verif_kdf(z, klen)
+}
